@@ -677,3 +677,79 @@ def c06_rebalance(case, impl_case):
                     any(int(k.path.split(".")[-1]) == t for k in n.kids) for t in tgt):
                 fails.append("%s row %d: cash fraction %r, expected %r" % (n.path, row, cash[row] / vals[row], 1 - sum(tgt.values())))
     return fails
+
+
+# ---------------------------------------------------------------- C20
+def c20_risk(case, impl_case):
+    fails = []
+    state = impl_case["steps"][-1]["state"]
+    root, nodes, _ = build_tree(state)
+    if root is None:
+        return fails
+    risk_data = [a for k, a in case.get("adata", []) if k == 0 and a[0] == "risk"]
+    mults = mults_of_case(case)
+    if risk_data:
+        frames = {m: (ix, {k: col for k, col in cols}) for m, ix, cols in risk_data[0][1]}
+        last_ts = case["dates"][-1]
+        for n in walk(root):
+            if "risk" not in n.f or "~" in n.path:
+                continue
+            t = n.f["risk"]
+            rk = {int(t[i]): tok_val(t[i + 1]) for i in range(0, len(t), 2)}
+            for m, r in rk.items():
+                if n.kind == "S":
+                    ix, cols = frames[m]
+                    sid = int(n.path.split(".")[-1])
+                    unit = float.fromhex(cols[sid][ix.index(last_ts)]) if sid in cols and last_ts in ix else 0.0
+                    want = 0.0 if abs(n.s["pos"]) < 1e-16 else unit * n.s["pos"] * mults.get(strip_paper(n.path), 1.0)
+                    # the record is as of the last UpdateRisk; positions only change through the hedge in between
+                    trs = node_traces(root)
+                    if not near(r, want, want) and trs and trs[-1][1] and trs[-1][0] == len(case["dates"]):
+                        fails.append("%s: risk %r, expected unit risk x position x multiplier = %r" % (n.path, r, want))
+                else:
+                    tot = 0.0
+                    for k in n.kids:
+                        if "risk" in k.f:
+                            tk = k.f["risk"]
+                            tot += dict((int(tk[i]), tok_val(tk[i + 1])) for i in range(0, len(tk), 2)).get(m, 0.0)
+                    if not near(r, tot, max(abs(x) for x in [tot, 1.0])):
+                        fails.append("%s: risk %r != sum over children %r" % (n.path, r, tot))
+        # after HedgeRisks and a second UpdateRisk the hedged measure is zero
+        specs = spec_index(case["tree"])
+        fl = flat_algos(specs["r"][4])
+        tr = node_traces(root)
+        if any(a[0] == "hedgerisk1" for a in fl) and tr and tr[-1][1] and tr[-1][0] == len(case["dates"]) and "risk" in root.f:
+            t = root.f["risk"]
+            gross = sum(abs(dict((int(k.f["risk"][i]), tok_val(k.f["risk"][i + 1])) for i in range(0, len(k.f["risk"]), 2)).get(1, 0.0))
+                        for k in walk(root) if k.kind == "S" and "risk" in k.f)
+            r = tok_val(t[1])
+            if abs(r) > 1e-9 * max(1.0, gross):
+                fails.append("root risk after hedging is %r (gross %r)" % (r, gross))
+    # ClosePositionsAfterDates + SelectActive: no position once the close date has passed and the stack has run
+    specs = spec_index(case["tree"])
+    fl = flat_algos(specs["r"][4]) if len(specs["r"]) > 4 else []
+    closes = [a for a in fl if a[0] == "closeafter"]
+    # (only when the weights are derived from the selection: WeighSpecified / WeighTarget ignore SelectActive)
+    if closes and any(a[0] == "selectactive" for a in fl) and fl.index(closes[0]) <= 1 and \
+            any(a[0] == "weighequally" for a in fl) and not any(a[0] in ("weighspecified", "weightarget", "rollafter") for a in fl):
+        table = dict([a for k, a in case.get("adata", []) if k == closes[0][1]][0][1])
+        dates = [case["dates"][0] - 86400] + list(case["dates"])
+        # rows on which the close algo certainly executed: the run got at least as far as the weighting algos
+        ran = [row for row, res, sel, w, st in node_traces(root) if row is not None and (res or w is not None)]
+        for n in root.kids:
+            if n.kind != "S":
+                continue
+            sid = int(n.path.split(".")[-1])
+            if sid not in table:
+                continue
+            first = [row for row in ran if dates[row] >= table[sid]]
+            if not first:
+                continue
+            pos = n.vals("h_positions")
+            for row in range(first[0], len(pos)):
+                if abs(pos[row]) > 1e-9:
+                    lazy = bool(specs.get(n.path, [0] * 6)[5])
+                    fails.append("%s%s: position %r on row %d although its close date passed on row %d"
+                                 % ("[K14 lazy child] " if lazy and row == first[0] else "", n.path, pos[row], row, first[0]))
+                    break
+    return fails
